@@ -223,6 +223,15 @@ func (d *Data) PutBlocks(v dvid.VersionID, mutID uint64, start dvid.ChunkPoint3d
 	ctx := datastore.NewVersionedCtx(d, v)
 	batch := batcher.NewBatch(ctx)
 
+	// Posted blocks extend the advertised extents like any other voxel write.
+	if span > 0 {
+		last := start
+		last[0] += int32(span - 1)
+		if err := d.PostExtents(ctx, start.MinPoint(d.BlockSize()), last.MaxPoint(d.BlockSize())); err != nil {
+			return err
+		}
+	}
+
 	// Read blocks from the stream until we can output a batch put.
 	const BatchSize = 1000
 	var readBlocks int
